@@ -46,6 +46,10 @@ def run(res, tier, seed, replay):
     for r in trecs:
         if "obs2" not in r or r.get("p2") is None:
             continue
+        # C09 speaks about providers that give no availability hints: with hints the solver may fetch the dependencies of
+        # hinted lower-ranked candidates (and what they mention), in the first solve or in a later one
+        if any(k["hint"] != "none" for k in r["case"]["u"]["pkgs"]):
+            continue
         fake.append({"case": r["case"], "_r": r,
                      "runs": [{"label": "sync-twice", "mode": "Sync", "sched": None,
                                "solves": [{"p": r["case"]["p"], "outcome": r["obs"]["outcome"]}, {"p": r["p2"], "outcome": r["obs2"]["outcome"]}],
